@@ -319,8 +319,23 @@ func runC17(c *config) {
 	c17Assign(c, []int64{-1, 3, -1, 0, -1}, "example")
 	c17Assign(c, []int64{0, 0}, "zero_value_ids") // two constructed nodes with Go's zero value: collide
 	// 2. metadata graphs through the parser
+	reMDRef := regexp.MustCompile(`!([0-9]+)`)
 	for i := 0; i < 600*c.scale; i++ {
 		src, ids, named := c17GenGraph(r)
+		if i%3 == 2 {
+			// IDs spelled with leading zeros (decimal all the same: !010 is !10), wherever no specialised node is
+			// written on the line (those are compared verbatim with the printer's spelling below)
+			lines := strings.Split(src, "\n")
+			for k, l := range lines {
+				if !strings.Contains(l, "!DI") {
+					lines[k] = reMDRef.ReplaceAllStringFunc(l, func(m string) string {
+						return "!" + strings.Repeat("0", r.intn(3)) + m[1:]
+					})
+				}
+			}
+			src = strings.Join(lines, "\n")
+			o.Stat("graphs.leading_zero_ids")
+		}
 		var m *ir.Module
 		var text string
 		stage := "parse"
